@@ -451,8 +451,18 @@ func (x *Exec) applyContract(fr *frame, ct *Contract, callee *ssa.Function, args
 	}
 	// 2. havoc what the callee may write
 	var ws *WriteSet
-	if ct.Havoc || hasStar(ct.Modifies) {
+	inferredOnly := false
+	if ct.Havoc {
 		ws = &WriteSet{Top: true}
+	} else if hasStar(ct.Modifies) {
+		ws = &WriteSet{Top: true}
+		if callee != nil && len(callee.Blocks) > 0 && !ct.Assumed && inRepoFn(callee) {
+			// no frame is promised, but the code bounds what can be written
+			if iw := x.eng.writeSet(callee); !iw.Top {
+				ws = iw
+				inferredOnly = true
+			}
+		}
 	} else if callee != nil && len(callee.Blocks) > 0 && !ct.Assumed {
 		ws = x.eng.writeSet(callee)
 		ws = ws.union(x.eng.contractWrites(x, ct))
@@ -469,7 +479,9 @@ func (x *Exec) applyContract(fr *frame, ct *Contract, callee *ssa.Function, args
 		nst = st.clone()
 	}
 	// 3. frame axioms
-	if !ws.Top {
+	if inferredOnly {
+		x.inferredFieldFrames(ws, old, nst, reach)
+	} else if !ws.Top {
 		x.frameFacts(ct, pre, ws, old, nst, reach, false, "")
 	}
 	// 4. results
@@ -958,10 +970,12 @@ func (x *Exec) execAppend(fr *frame, cc *ssa.CallCommon, args []sval, st *State,
 	es := sanitize(x.so.sortOf(et))
 	x.eng.needRowOps(x.so.sortOf(et))
 	// append(s, str...) where the second argument is a string: same model
+	doneAlloc := x.allocFrame(st, comp)
 	r := x.allocRef(st, "app")
 	cur := st.get(comp)
 	nl := x.define("applen", "Int", "(+ (s_len "+s.t+") (s_len "+t.t+"))")
 	st.set(comp, x.define(comp, x.so.comps[comp], "(store "+cur+" "+r+" (appendRow_"+es+" (select "+cur+" (s_base "+s.t+")) (s_off "+s.t+") (s_len "+s.t+") (select "+cur+" (s_base "+t.t+")) (s_off "+t.t+") (s_len "+t.t+")))"))
+	doneAlloc()
 	ncap := x.freshConst("appcap", "Int")
 	x.assume(reach, "(and (>= "+ncap+" "+nl+") (<= "+ncap+" 4611686018427387904))")
 	// appending nothing to nil yields nil
@@ -1493,7 +1507,9 @@ func (e *Engine) scanWrites(fn *ssa.Function, blocks []*ssa.BasicBlock) *WriteSe
 				if callee != nil && len(callee.Blocks) > 0 && inRepoFn(callee) && (ct == nil || !ct.Assumed) {
 					sub := e.writeSet(callee)
 					ws.merge(sub)
-					if ct != nil {
+					if ct != nil && !hasStar(ct.Modifies) {
+						// `modifies *` on a function with a body only waives its frame obligation:
+						// what it can write is bounded by what its code writes (computed above)
 						cw := e.contractWrites(x, ct)
 						ws.merge(cw)
 					}
